@@ -65,10 +65,14 @@ fn config_row(row: usize, gens: usize) -> (String, Value) {
 }
 
 fn gen_cases(rng: &mut Rng, tier: Tier) -> Vec<Value> {
-    let (n, gens) = if tier == Tier::Thorough { (700, 150) } else { (70, 60) };
+    let (n, gens) = if tier == Tier::Thorough { (1200, 150) } else { (120, 60) };
     (0..n)
         .map(|i| {
             let mut cfg = GenCfg::random(rng);
+            if i % 3 == 2 {
+                cfg.jobs = (15, 32);
+                cfg.vehicles_per_type = (2, 4);
+            }
             // the proof-backed stream: metric matrices
             cfg.metric = true;
             let sp = gen_problem(rng, &cfg);
@@ -96,25 +100,28 @@ fn derive_relations(sp: &SProblem, sol: &Value, rseed: u64) -> Vec<SRelation> {
             .map(|a| a["jobId"].as_str().unwrap().to_string())
             .collect();
         let kind = *rng.pick(&["any", "sequence", "strict"]);
-        let jobs: Vec<String> = match kind {
-            "strict" => {
-                // a contiguous run of plain jobs, optionally anchored at departure
-                let plain: Vec<usize> = ids.iter().enumerate().filter(|(_, id)| single_place(id)).map(|(i, _)| i).collect();
-                let mut run: Vec<String> = vec![];
-                if let Some(&start) = plain.first() {
-                    let mut i = start;
-                    while i < ids.len() && single_place(&ids[i]) && run.len() < 3 {
-                        run.push(ids[i].clone());
-                        i += 1;
-                    }
-                    if start == 1 && rng.chance(1, 2) {
-                        run.insert(0, "departure".to_string());
-                    }
-                }
-                run
+        // NOTE jobs of a relation are not checked for constraint violations (documented): a consistent relation
+        // repeats a prefix of a feasible tour, in tour order, from the departure on, up to the first break or job
+        // that relations do not support; reloads are listed for sequence/strict, `any` stops before the first reload
+        let mut prefix: Vec<String> = vec![];
+        for id in ids.iter() {
+            let ok = match id.as_str() {
+                "departure" => true,
+                "reload" => kind != "any",
+                "break" | "arrival" => false,
+                other => single_place(other),
+            };
+            if !ok {
+                break;
             }
-            _ => ids.iter().filter(|id| single_place(id) && rng.chance(2, 3)).cloned().collect(),
-        };
+            prefix.push(id.clone());
+        }
+        let keep = rng.usize(1, prefix.len().max(1));
+        prefix.truncate(keep.max(2).min(prefix.len()));
+        while prefix.last().is_some_and(|id| id == "reload") {
+            prefix.pop();
+        }
+        let jobs: Vec<String> = if kind == "any" { prefix.into_iter().filter(|id| id != "departure").collect() } else { prefix };
         if jobs.iter().filter(|j| *j != "departure").count() == 0 {
             continue;
         }
